@@ -361,6 +361,26 @@ func (in *Interp) RunStmts(list []ast.Stmt, entry *State) *State {
 	return end
 }
 
+// RunLoopBody interprets the body of a loop once from entry and returns separately the state that
+// flows back to the loop head (end of body ∪ continue) and the state that leaves through break.
+// Return statements are reported through Hooks.Exit.
+func (in *Interp) RunLoopBody(list []ast.Stmt, entry *State) (next, brk *State) {
+	if entry == nil {
+		entry = NewState()
+	}
+	fr := &frame{}
+	in.frames = append(in.frames, fr)
+	saved := in.targets
+	in.targets = nil
+	t := in.push("", true)
+	end := in.block(list, entry.Clone())
+	next = Join(end, t.contAcc)
+	brk = t.breakAcc
+	in.targets = saved
+	in.frames = in.frames[:len(in.frames)-1]
+	return next, brk
+}
+
 // RunFunc is the one-shot form of NewInterp+Run.
 func RunFunc(fi *FuncInfo, entry *State, h Hooks) (*State, *Interp) {
 	in := NewInterp(fi)
